@@ -92,6 +92,14 @@ structure Facts where
   deriveKeyAsExpected : Bool
   /-- `DeleteHistoricVersions` first removes the historic versions still listed under root/current/ -/
   vacuumFinishesRetire : Bool
+  /-- the keep pass also walks every version listed under root/current/ that is not in the graph -/
+  vacuumKeepsListedCurrent : Bool
+  /-- `Vacuum` replaces an open transaction's snapshot by the vacuumed tree -/
+  vacuumRepointsSnapshot : Bool
+  /-- `RemoveTombstones` clamps the cutoff to what int64 nanoseconds can express -/
+  purgeCutoffClamped : Bool
+  /-- nodes deleted by vacuum are dropped from the node cache -/
+  deletedNodesLeaveCache : Bool
   /-- `getHistoricRootsAndNodes`: links reachable from the current tree and from kept versions are removed from the delete set -/
   vacuumKeepsReachable : Bool
   /-- `Vacuum` / `s3db_refresh`: refuse a table with uncommitted changes -/
